@@ -9,7 +9,9 @@ CONSTANTS Keys,        \* abstract key names offered in the handshake (the harne
           Modes, Echoes,
           Plans,       \* delivery split classes
           Frames,      \* catalogue of client frames
-          MaxFrames
+          MaxFrames,
+          Pres,        \* handler preambles: subset of {"none", "poll", "pollpush"}
+          PushPays     \* payloads pushed by the "pollpush" preamble
 
 VARIABLE plan          \* split class used by the client on this connection
 
@@ -26,6 +28,9 @@ P125  == <<R(112, 125)>>                                  \* largest control pay
 P126  == <<R(120, 100), R(121, 26)>>                      \* smallest 16-bit length
 P64K  == <<R(122, 65536)>>                                \* smallest 64-bit length
 PC    == <<R(3, 1), R(232, 1), R(111, 1), R(107, 1)>>     \* close code 1000 + "ok"
+PBIG  == <<R(200, 3145728), R(201, 3145728)>>             \* 6 MiB: more than the socket buffers hold while the client does not read
+PushSmallBig == {PA, PBIG}
+PushNone     == {PE}
 F(op, fin, pay) == [op |-> op, fin |-> fin, pay |-> pay]
 
 FramesTiny ==
@@ -56,7 +61,8 @@ CutsOf(f, p) ==
       ELSE {}
 
 -----------------------------------------------------------------------------
-MCInit == \E m \in Modes, e \in Echoes, p \in Plans : InitWith(m, e) /\ plan = p
+MCInit == \E m \in Modes, e \in Echoes, p \in Plans, pr \in Pres :
+            \E pp \in (IF pr = "pollpush" THEN PushPays ELSE {PE}) : InitWith(m, e, pr, pp) /\ plan = p
 
 A_Handshake  == (\E k \in Keys \cup {NoKey} : Cli_Handshake(k)) /\ UNCHANGED plan
 A_StartFrame == /\ key = ScriptKey /\ Len(wire) < MaxFrames
@@ -71,16 +77,18 @@ A_Garbage    == Srv_Garbage /\ UNCHANGED plan
 A_None       == Srv_None /\ UNCHANGED plan
 A_Eof        == Srv_Eof /\ UNCHANGED plan
 A_Send       == Srv_Send /\ UNCHANGED plan
+A_Push       == Srv_Push /\ UNCHANGED plan
+A_WouldBlock == Srv_WouldBlock /\ UNCHANGED plan
 A_Drop       == Srv_Drop /\ UNCHANGED plan
 
 MCNext == A_Handshake \/ A_StartFrame \/ A_Piece \/ A_Shut
-          \/ A_CallRecv \/ A_Frame \/ A_OneByte \/ A_Garbage \/ A_None \/ A_Eof \/ A_Send \/ A_Drop
+          \/ A_CallRecv \/ A_Frame \/ A_OneByte \/ A_Garbage \/ A_None \/ A_Eof \/ A_WouldBlock \/ A_Send \/ A_Push \/ A_Drop
 
 mcvars == <<vars, plan>>
 \* liveness: a handler that keeps receiving
 MCFair ==
   /\ WF_mcvars(A_Piece) /\ WF_mcvars(A_CallRecv) /\ SF_mcvars(A_Frame) /\ SF_mcvars(A_Eof)
-  /\ WF_mcvars(A_Send) /\ WF_mcvars(A_Garbage)
+  /\ WF_mcvars(A_Send) /\ WF_mcvars(A_Push) /\ WF_mcvars(A_Garbage)
 MCSpec == MCInit /\ [][MCNext]_mcvars /\ MCFair
 AllDelivered == AllDeliveredUpTo(MaxFrames)
 
@@ -102,8 +110,10 @@ GenOK ==
      /\ (mode = "nonblocking" /\ ~closed /\ ~failed) => last = "none"   \* the polling handler stops after a `nothing yet'
      /\ (mode = "blocking" /\ cst = "shut" /\ ~closed) => failed           \* the blocking handler receives until an error
      /\ closed => cst = "run"
+     /\ pre # "none" => polled                  \* the handler always runs its preamble
+     /\ pre = "pollpush" => pushed
 GenRec ==
-  [key |-> key, mode |-> mode, echo |-> echo, plan |-> plan,
+  [key |-> key, mode |-> mode, echo |-> echo, plan |-> plan, pre |-> pre, push |-> pushpay,
    frames |-> [i \in 1..Len(wire) |-> [op |-> wire[i].op, fin |-> wire[i].fin, pay |-> wire[i].pay, cuts |-> cuts[i]]],
    sent |-> sentB, end |-> GenEnding,
    exp |-> [status |-> status, delivered |-> delivered, out |-> srvOut, closed |-> closed, failed |-> failed]]
